@@ -542,11 +542,60 @@ theorem pad_native_scalar (n : NativeTy) (v : CqlVal) (acc : List NativeTy) (b :
 theorem frame_false_ok (b body : Bytes) (viaB : Bool)
     (h : (if viaB = true then frame false b else frameChecked false b) = .ok body) : body = b := by
   cases viaB
-  · simp only [frameChecked] at h
+  · simp only [frameChecked, Bool.false_eq_true, if_false] at h
     split at h
     · cases h
-    · simp at h; exact h.symm
-  · simp [frame] at h; exact h.symm
+    · cases h; rfl
+  · simp only [frame, if_true, Bool.false_eq_true, if_false] at h
+    cases h; rfl
+
+theorem wf_map_inv (u : Bytes → Bool) (kt vt : CqlTy) (v : CqlVal) (h : wfVal u (.map kt vt) v = true) :
+    v = .empty ∨ ∃ kvs, v = .map kvs ∧ ∀ kv, kv ∈ kvs → wfVal u kt kv.1 = true ∧ wfVal u vt kv.2 = true := by
+  cases v <;> simp [wfVal] at h ⊢
+  intro a b hab
+  exact h a b hab
+
+theorem pairSpec_ok (gk gv : CqlVal → Except SerErr Bytes) (kv : CqlVal × CqlVal) (c : Bytes)
+    (h : pairSpec gk gv kv = .ok c) : ∃ kc vc, gk kv.1 = .ok kc ∧ gv kv.2 = .ok vc ∧ c = kc ++ vc := by
+  unfold pairSpec at h
+  cases hk : gk kv.1 with
+  | error e => rw [hk] at h; cases h
+  | ok kc =>
+    rw [hk] at h
+    simp only at h
+    cases hv : gv kv.2 with
+    | error e => rw [hv] at h; cases h
+    | ok vc => rw [hv] at h; cases h; exact ⟨kc, vc, rfl, rfl, rfl⟩
+
+theorem decMap_rt (u : Bytes → Bool) (kt vt : CqlTy) (ihk : RT u kt) (ihv : RT u vt) :
+    ∀ (kvs : List (CqlVal × CqlVal)) (cells rest : Bytes),
+      (∀ kv, kv ∈ kvs → wfVal u kt kv.1 = true ∧ wfVal u vt kv.2 = true) →
+      concatEnc (pairSpec (fun k => encSpec kt k true) (fun v => encSpec vt v true)) kvs = .ok cells →
+      cells.length < 2 ^ 64 →
+      decMap (fun b => decVal u kt b) (fun b => decVal u vt b) kvs.length (cells ++ rest) =
+        .ok (kvs.map (fun kv => (pad kt kv.1, pad vt kv.2))) := by
+  intro kvs
+  induction kvs with
+  | nil => intro cells rest _ h _; simp [decMap]
+  | cons kv kvs ihs =>
+    intro cells rest hw h hlt
+    obtain ⟨c, r, hc, hr, rfl⟩ := concatEnc_cons_ok _ kv kvs cells h
+    obtain ⟨kc, vc, hkc, hvc, rfl⟩ := pairSpec_ok _ _ kv c hc
+    have hwv := hw kv List.mem_cons_self
+    obtain ⟨kb, hkb, hklen, rfl⟩ := wf_cell u kt kv.1 kc hwv.1 hkc
+    obtain ⟨vb, hvb, hvlen, rfl⟩ := wf_cell u vt kv.2 vc hwv.2 hvc
+    have hl : kb.length < 2 ^ 64 ∧ vb.length < 2 ^ 64 ∧ r.length < 2 ^ 64 := by
+      simp only [List.length_append] at hlt; omega
+    have e : be32 kb.length ++ kb ++ (be32 vb.length ++ vb) ++ r ++ rest =
+        be32 kb.length ++ kb ++ (be32 vb.length ++ vb ++ (r ++ rest)) := by
+      simp [List.append_assoc]
+    simp only [List.length_cons, decMap, e, readCqlBytes_cell kb _ hklen, readCqlBytes_cell vb _ hvlen]
+    rw [(ihk kv.1 kb hwv.1 hkb hl.1).1]
+    simp only
+    rw [(ihv kv.2 vb hwv.2 hvb hl.2.1).1]
+    simp only
+    rw [ihs r rest (fun x hx => hw x (List.mem_cons_of_mem _ hx)) hr hl.2.2]
+    rfl
 
 mutual
 theorem rt (u : Bytes → Bool) : ∀ t : CqlTy, RT u t
@@ -576,9 +625,48 @@ theorem rt (u : Bytes → Bool) : ∀ t : CqlTy, RT u t
       revert h1
       cases readCount body with
       | error e => intro h1; cases h1
-      | ok r => obtain ⟨n, rest⟩ := r; intro h1; simp only at h1 ⊢; rw [h1]
-  | .set elt => by sorry
-  | .map kt vt => by sorry
+      | ok r => obtain ⟨n, rest⟩ := r; intro h1; simp only at h1 ⊢; rw [h1]; rfl
+  | .set elt => by
+    intro v body hw he hlt
+    rcases wf_set_inv u elt v hw with rfl | ⟨vs, rfl, hall⟩
+    · exact rt_empty u _ body hw he
+    · rw [encSpec] at he
+      simp only [viewOf] at he
+      obtain ⟨h1, h2⟩ := rt_seq u elt (rt u elt) vs body hall he hlt
+      refine ⟨?_, fun h => absurd h h2⟩
+      rw [decVal]
+      have : body.isEmpty = false := by cases body <;> simp at h2 ⊢
+      simp only [this, Bool.false_and]
+      simp only [pad]
+      revert h1
+      cases readCount body with
+      | error e => intro h1; cases h1
+      | ok r => obtain ⟨n, rest⟩ := r; intro h1; simp only at h1 ⊢; rw [h1]; rfl
+  | .map kt vt => by
+    intro v body hw he hlt
+    rcases wf_map_inv u kt vt v hw with rfl | ⟨kvs, rfl, hall⟩
+    · exact rt_empty u _ body hw he
+    · rw [encSpec] at he
+      simp only [viewOf] at he
+      split at he
+      · cases he
+      · rename_i hlen
+        cases hc : concatEnc (pairSpec (fun k => encSpec kt k true) (fun v => encSpec vt v true)) kvs with
+        | error e => rw [hc] at he; cases he
+        | ok cells =>
+          rw [hc] at he
+          simp only [frame] at he
+          cases he
+          refine ⟨?_, fun h => absurd h (be32_append_ne_nil' _ _)⟩
+          rw [decVal]
+          simp only [be32_append_ne_nil, Bool.false_and]
+          rw [readCount_be32 _ _ (by omega)]
+          simp only [pad]
+          have hl : cells.length < 2 ^ 64 := by simp only [List.length_append] at hlt; omega
+          have := decMap_rt u kt vt (rt u kt) (rt u vt) kvs cells [] hall hc hl
+          rw [List.append_nil] at this
+          rw [this]
+          rfl
   | .tuple ts => by sorry
   | .udt ks name fields => by sorry
   | .vector elt dim => by sorry
